@@ -2,7 +2,7 @@ package kv
 
 // Fault histories of the sharded store's multi-key delete (property C12, overlaid into lib/store/kv
 // by /verif/bin/check).  Behaviours come from spec/ShardedDel.tla: some keys are set, one of three
-// miniredis shards is closed, one Del names 1..3 keys in some order, the shard comes back, every
+// miniredis shards goes down (drops every connection), one Del names 1..3 keys in some order, the shard comes back, every
 // key is read back.  The driver finds real key names for the model's (key, home shard) pairs by
 // probing through the store, and compares the Del's count / error and the read-back with the model.
 
@@ -10,10 +10,12 @@ import (
 	"context"
 	"fmt"
 	"strings"
+	"sync/atomic"
 	"testing"
 	"time"
 
 	"github.com/alicebob/miniredis/v2"
+	"github.com/alicebob/miniredis/v2/server"
 	kit "github.com/gotid/god/internal/verifkit"
 	"github.com/gotid/god/lib/mathx"
 	"github.com/gotid/god/lib/store/cache"
@@ -25,6 +27,10 @@ func TestVerifC12ShardDel(t *testing.T) {
 	defer rep.Close()
 	mathx.SetVerifCoin(func(float64) (bool, bool) { return false, true })
 	const nshards = 3
+	// a shard that is "down" accepts connections and drops them at the first command (pre-hook): every
+	// command to it fails at connection level, without go-redis' pool caching dial errors for a second
+	// after the shard is back (which a closed listener would cause)
+	var dead [nshards]atomic.Bool
 	var servers []*miniredis.Miniredis
 	var conf Config
 	for i, w := range []int{60, 100, 80} {
@@ -33,9 +39,16 @@ func TestVerifC12ShardDel(t *testing.T) {
 			t.Fatal(err)
 		}
 		defer s.Close()
+		idx := i
+		s.Server().SetPreHook(func(p *server.Peer, _ string, _ ...string) bool {
+			if dead[idx].Load() {
+				p.Close()
+				return true
+			}
+			return false
+		})
 		servers = append(servers, s)
 		conf = append(conf, cache.NodeConfig{Config: redis.Config{Host: s.Addr(), Type: redis.NodeType}, Weight: w})
-		_ = i
 	}
 	store := New(conf)
 	// names per home shard, found by writing through the store and looking where the key landed
@@ -56,7 +69,13 @@ func TestVerifC12ShardDel(t *testing.T) {
 			t.Fatalf("no key names found for shard %d", h+1)
 		}
 	}
-	reachable := func(s *miniredis.Miniredis) bool { return redis.New(s.Addr()).Ping() }
+	reachable := func(s *miniredis.Miniredis) bool {
+		if redis.New(s.Addr()).Ping() {
+			return true
+		}
+		time.Sleep(20 * time.Millisecond)
+		return false
+	}
 	for _, c := range cases {
 		if c.Index%shards != shard {
 			continue
@@ -89,11 +108,12 @@ func TestVerifC12ShardDel(t *testing.T) {
 				trail = append(trail, fmt.Sprintf("set %s@%d", k, home))
 			case "down":
 				closed = kit.Num(st["shard"]) - 1
-				servers[closed].Close()
+				dead[closed].Store(true)
 				trail = append(trail, fmt.Sprintf("shard %d down", closed+1))
 			case "up":
-				if err := servers[closed].Restart(); err != nil || !kit.WaitFor(10*time.Second, func() bool { return reachable(servers[closed]) }) {
-					v = kit.Verdict{Case: c.Index, Infra: true, Msg: fmt.Sprintf("step %d: shard %d not reachable again (%v)", i, closed+1, err)}
+				dead[closed].Store(false)
+				if !kit.WaitFor(30*time.Second, func() bool { return reachable(servers[closed]) }) {
+					v = kit.Verdict{Case: c.Index, Infra: true, Msg: fmt.Sprintf("step %d: shard %d not reachable again", i, closed+1)}
 					break steps
 				}
 				trail = append(trail, fmt.Sprintf("shard %d up", closed+1))
@@ -164,8 +184,8 @@ func TestVerifC12ShardDel(t *testing.T) {
 			}
 		}
 		if closed >= 0 { // leave all shards up for the next behaviour
-			servers[closed].Restart()
-			kit.WaitFor(10*time.Second, func() bool { return reachable(servers[closed]) })
+			dead[closed].Store(false)
+			kit.WaitFor(30*time.Second, func() bool { return reachable(servers[closed]) })
 		}
 		rep.Put(v)
 	}
